@@ -132,6 +132,13 @@ def evaluate(ctx, cases):
             sys.modules['tqdm'] = stub; sys.modules['tqdm.notebook'] = nb
         try:
             if c['via'] == 'func':
+                if isinstance(kwv, list) and c['seed'] % 3 == 0:
+                    # a call history on the caller's OWN option list: the same list object went through the flattened-epoch route (and a per-row route with the
+                    # other sample switch) before; "the options given for row i" are the ones the caller wrote, whatever earlier calls did with their copies
+                    for ax, rs_ in ((None, True), (0, not c['rs'])):
+                        try: implutil.quiet(compute_features_2d, sigs, fs, fr, compute_features_kwargs=kwv, axis=ax, return_samples=rs_, n_jobs=1)
+                        except Exception: pass
+                    info['history'] = 'option list reused'
                 res = implutil.quiet(compute_features_2d, sigs, fs, fr, compute_features_kwargs=kwv, axis=0, return_samples=c['rs'],
                                      n_jobs=c['n_jobs'], progress=c['progress'])
                 models = None
